@@ -104,7 +104,7 @@ class InterpBase:
         self.max_paths = 4000
         self.obligations = []  # side obligations raised during execution (lock discipline, asserts)
         self.attr_hook = None  # optional: fn(interp, st, obj, name) -> results or None
-        self.feas_timeout = 2000
+        self.feas_timeout = 300
         self.src_cache = {}
         self.on_unknown_call = None
         from . import models
@@ -148,7 +148,10 @@ class InterpBase:
             if isinstance(h, HList):
                 return (len(h.items) > 0) if h.concrete else (h.n > 0)
             if isinstance(h, HDict):
-                return (len(h.items) > 0) if h.concrete else (h.size > 0)
+                if h.concrete:
+                    return len(h.items) > 0
+                kq = z3.Const(fresh_name("tk"), KIND_SORT[h.kk])
+                return z3.Exists([kq], z3.Select(h.dom, kq))
             if isinstance(h, HSet):
                 return (len(h.items) > 0) if h.items is not None else (h.size > 0)
             if isinstance(h, HObj):
